@@ -21,7 +21,7 @@ ASSUMPTIONS = ["std::deque::emplace_front / std::remove_if / erase behave per th
 
 def run(ctx):
     # locals / parameters the rules below refer to by name (a rename makes the analysis 'broken', never a violation)
-    ctx.anchor(ctx.fn1('Oomd::Engine::Engine::removeDropInConfig'), 'n', 'i', 'tag')
+    ctx.anchor(ctx.fn1('Oomd::Engine::Engine::removeDropInConfig'), 'n', 'tag')
     ctx.anchor(ctx.fn1('Oomd::Engine::Engine::addDropInConfig'), 'tag', 'unit')
     ctx.anchor(ctx.fn1('Oomd::Engine::Engine::addDropInRuleset'), 'it')
     ctx.anchor(ctx.fn1('Oomd::Engine::Ruleset::mergeWithDropIn'), 'ruleset')
@@ -91,24 +91,42 @@ def run(ctx):
         un = rm.calls("Ruleset::markDropInUntargeted")
         stat = [i for i in rm.calls("Oomd::incrementStat") if "kNumDropInAdds" in rm.text(rm.nodes[i]["args"][0])]
         er = [i for i in rm.calls("erase") if "dropins" in rm.text(rm.nodes[i].get("recv", -1))]
-        ctx.counters["remove_effects"] = len(un) + len(stat) + len(er)
+        ei = [i for i in rm.calls("erase_if", "std::erase_if") if rm.nodes[i].get("args") and "dropins" in rm.text(rm.nodes[i]["args"][0])]
+        ctx.counters["remove_effects"] = len(un) + len(stat) + len(er) + len(ei)
         ctx.floor("remove_effects", 3, "erase / markDropInUntargeted / incrementStat in removeDropInConfig")
-        # count n = dropins.cend() - remove_if(begin, end, tag predicate)
         init, v = local_init(rm, "n")
         nt = Xr(init) if v else "?"
-        ctx.check(v is not None and re.search(r"std::remove_if\(elem\(this->rulesets_\)\.dropins\.begin\(\), elem\(this->rulesets_\)\.dropins\.end\(\), ", nt) is not None
-                  and ".dropins.cend()" in nt, "remove:count-is-erased-range", "provenance", rm.loc(),
-                  "n counts the drop-ins of this base carrying the tag", "n is " + nt[:160])
-        for i in er:
-            a = [Xr(x) for x in rm.nodes[i]["args"]]
-            ctx.check(len(a) == 2 and "std::remove_if(" in a[0] and ".dropins.end()" in a[1], "remove:erase-tagged-range", "provenance",
-                      rm.loc(i), "erases exactly the tagged drop-ins", "erases " + str(a)[:140])
+        if ei and not er:
+            # C++20 form: n = std::erase_if(base.dropins, tag predicate)
+            ctx.check(v is not None and re.search(r"erase_if\(elem\(this->rulesets_\)\.dropins, ", nt) is not None and len(ei) == 1, "remove:count-is-erased-range", "provenance", rm.loc(),
+                      "n is the number of drop-ins erased from this base by the tag predicate", "n is " + nt[:160])
+        else:
+            # count n = dropins.cend() - remove_if(begin, end, tag predicate)
+            ctx.check(v is not None and re.search(r"std::remove_if\(elem\(this->rulesets_\)\.dropins\.begin\(\), elem\(this->rulesets_\)\.dropins\.end\(\), ", nt) is not None
+                      and ".dropins.cend()" in nt, "remove:count-is-erased-range", "provenance", rm.loc(),
+                      "n counts the drop-ins of this base carrying the tag", "n is " + nt[:160])
+            for i in er:
+                a = [Xr(x) for x in rm.nodes[i]["args"]]
+                ctx.check(len(a) == 2 and "std::remove_if(" in a[0] and ".dropins.end()" in a[1], "remove:erase-tagged-range", "provenance",
+                          rm.loc(i), "erases exactly the tagged drop-ins", "erases " + str(a)[:140])
         # untarget loop runs n times; stat gets -n
         for i in un:
+            if rm.nodes[i].get("args"):
+                ctx.broken("remove:untarget-once-per-erased", "anchor", rm.loc(i), "markDropInUntargeted takes arguments now: the counting rule does not apply")
+                continue
             lp = [l for l in loops(rm) if rm.pos_of(i)[0] in l["body"] and l is not O and l["stmt"] != O["stmt"]]
             hdr = loop_header(rm, lp[0]) if lp else ""
-            ctx.check(bool(lp) and re.search(r"i = 0 ; \(i < n\) ; \+\+i", hdr) is not None, "remove:untarget-once-per-erased", "loop-shape",
-                      rm.loc(i), "markDropInUntargeted runs once per erased drop-in", "untarget loop is '%s'" % hdr)
+            m = re.search(r"(\w+) = 0 ; \((\w+) < n\) ; (?:\+\+(\w+)|(\w+)\+\+)", hdr)
+            counted = bool(m) and m.group(1) == m.group(2) == (m.group(3) or m.group(4))
+            if lp and not counted:
+                ctx.broken("remove:untarget-once-per-erased", "anchor", rm.loc(i), "markDropInUntargeted sits in a loop whose header '%s' is not the counted form (k = 0; k < n; ++k)" % hdr)
+            else:
+                ctx.check(counted, "remove:untarget-once-per-erased", "loop-shape",
+                          rm.loc(i), "markDropInUntargeted runs once per erased drop-in",
+                          "markDropInUntargeted is called once although n drop-ins were erased from the base: its target count stays positive and a "
+                          "disable-on-drop-in base remains disabled after the last drop-in is gone")
+                if counted:
+                    per_iter_once(ctx, rm, lp[0], [i], "remove:untarget-exactly-once-per-iteration", "markDropInUntargeted per erased drop-in")
             ctx.check("elem(this->rulesets_).ruleset" in Xr(rm.nodes[i]["recv"]), "remove:untarget-that-base", "provenance", rm.loc(i),
                       "untargets the base that lost the drop-ins", "untargets " + Xr(rm.nodes[i]["recv"])[:80])
         for i in stat:
@@ -123,10 +141,16 @@ def run(ctx):
         ctx.check(len(tagp) >= 2, "remove:by-tag", "value-shape", rm.loc(), "drop-ins and hooks are selected by tag equality",
                   "removal predicates do not compare tags")
         hk = [i for i in rm.calls("erase") if "prekill_hooks_in_reverse_order_" in rm.text(rm.nodes[i].get("recv", -1))]
-        ctx.check(len(hk) == 1 and "std::remove_if(this->prekill_hooks_in_reverse_order_.begin()" in Xr(rm.nodes[hk[0]]["args"][0])
-                  and "this->prekill_hooks_in_reverse_order_.end()" in Xr(rm.nodes[hk[0]]["args"][1]),
-                  "remove:hooks-of-tag", "provenance", rm.loc(hk[0]) if hk else rm.loc(), "the tag's hooks are erased too",
-                  "hooks of the removed tag are not erased")
+        hk2 = [i for i in rm.calls("erase_if", "std::erase_if") if rm.nodes[i].get("args") and "prekill_hooks_in_reverse_order_" in rm.text(rm.nodes[i]["args"][0])]
+        if hk2 and not hk:
+            ctx.check(len(hk2) == 1 and Xr(rm.nodes[hk2[0]]["args"][0]) == "this->prekill_hooks_in_reverse_order_", "remove:hooks-of-tag", "provenance", rm.loc(hk2[0]),
+                      "the tag's hooks are erased too", "hooks of the removed tag are not erased")
+            hk = hk2
+        else:
+            ctx.check(len(hk) == 1 and "std::remove_if(this->prekill_hooks_in_reverse_order_.begin()" in Xr(rm.nodes[hk[0]]["args"][0])
+                      and "this->prekill_hooks_in_reverse_order_.end()" in Xr(rm.nodes[hk[0]]["args"][1]),
+                      "remove:hooks-of-tag", "provenance", rm.loc(hk[0]) if hk else rm.loc(), "the tag's hooks are erased too",
+                      "hooks of the removed tag are not erased")
         # all on every call (not conditional on anything but n)
         fall = Flow(P, rm, cg=ctx.cg)
         for i in hk:
